@@ -324,3 +324,10 @@ pub fn sig_bits(v: f64) -> u32 {
     let m = if exp == 0 { frac } else { frac | (1u64 << 52) };
     64 - m.leading_zeros() - m.trailing_zeros()
 }
+
+impl Rat {
+    /// largest integer <= self
+    pub fn floor(self) -> i128 {
+        self.n.div_euclid(self.d)
+    }
+}
